@@ -230,6 +230,11 @@ func evalC07(c *engine.Case) engine.Verdict {
 	sc := c.Sc
 	engine.ScenarioClasses(&v, sc)
 	v.Class(fmt.Sprintf("shape=%d", x.Shape))
+	for _, in := range sc.Inputs {
+		if in.Tok == x.NameInput && in.L.Sub != "" {
+			v.Class("same-named-input-carries-subtype")
+		}
+	}
 	v.NonTrivial = true
 	reps := c.Reps
 	if reps <= 0 {
@@ -336,7 +341,13 @@ func genC07(g engine.G) *engine.Case {
 		sc.Inputs = append(sc.Inputs, engine.Input{L: l, Tok: tok})
 		return tok
 	}
-	x.NameInput = add(engine.Label{Name: n, Type: t0})
+	// the same-named value may carry a subtype: a parameter / converter input
+	// named n without subtype still takes it, and name affinity still decides
+	nameSub := ""
+	if g.Pct(30) {
+		nameSub = engine.Pick(g, engine.AllSubs)
+	}
+	x.NameInput = add(engine.Label{Name: n, Type: t0, Sub: nameSub})
 	var extraParams []string
 	if x.Shape == 3 {
 		// 1-2 further named parameters of the same target type, each with a
@@ -352,7 +363,11 @@ func genC07(g engine.G) *engine.Case {
 	for i, m := 0, g.Int(1, 3); i < m; i++ {
 		o := engine.Pick(g, names)
 		if _, taken := x.ParamInput[o]; o != n && !taken {
-			add(engine.Label{Name: o, Type: t0})
+			l := engine.Label{Name: o, Type: t0}
+			if g.Pct(25) {
+				l.Sub = engine.Pick(g, engine.AllSubs)
+			}
+			add(l)
 		}
 	}
 	if g.Pct(40) {
